@@ -191,6 +191,37 @@ func CheckAddVar(run *core.Run, prog *load.Program) *NameAlloc {
 	} else {
 		run.Undecided("G-ADDVAR/numbering", "role", "internal/registry/method_scope.go", "resolveVarNameConflict not found")
 	}
+	// every newly discovered import is compared with the existing variables: no early exit from the loop(s)
+	if vf, _, _ := moqFunc(prog, load.PkgRegistry, "MethodScope.resolveImportVarConflicts"); vf != nil {
+		exits := 0
+		ast.Inspect(vf.Decl.Body, func(n ast.Node) bool {
+			switch x := n.(type) {
+			case *ast.ForStmt, *ast.RangeStmt:
+				var body *ast.BlockStmt
+				if fs, ok := x.(*ast.ForStmt); ok {
+					body = fs.Body
+				} else {
+					body = x.(*ast.RangeStmt).Body
+				}
+				ast.Inspect(body, func(m ast.Node) bool {
+					switch b := m.(type) {
+					case *ast.ReturnStmt:
+						exits++
+					case *ast.BranchStmt:
+						if b.Tok == token.BREAK || b.Tok == token.GOTO {
+							exits++
+						}
+					case *ast.FuncLit:
+						return false
+					}
+					return true
+				})
+				return false
+			}
+			return true
+		})
+		run.Check("G-ADDVAR/all-imports-checked", "resolveImportVarConflicts", prog.Pos(vf.Decl.Pos()), exits == 0, fmt.Sprintf("the loop over the new imports can stop early (%d return/break statements): imports visited later are never compared with the existing variable names", exits))
+	}
 	run.Floor("G-ADDVAR/dominates", 8)
 	return na
 }
@@ -494,9 +525,23 @@ func CheckVarNameOwners(run *core.Run, prog *load.Program) {
 			if call, ok := n.(*ast.CallExpr); ok {
 				if cf, ok := typeutil.Callee(info, call).(*types.Func); ok && cf.Pkg() != nil && cf.Pkg().Path() == load.PkgTemplate {
 					switch load.FuncName(cf) {
-					case "ParamData.Name", "ParamData.CallName", "ParamData.MethodArg", "MethodData.ArgList", "MethodData.ArgCallList", "MethodData.ReturnArgNameList":
+					case "ParamData.Name", "ParamData.CallName", "ParamData.MethodArg", "MethodData.ArgList", "MethodData.ArgCallList", "MethodData.ReturnArgNameList", "ParamData.TypeString", "MethodData.ReturnArgTypeList":
 						run.Check("G-VARNAME/readers", fn.Pkg().Name()+"."+load.FuncName(fn)+"→"+load.FuncName(cf), prog.Pos(call.Pos()), false, load.FuncName(fn)+" renders names ("+load.FuncName(cf)+") while the data is still being built")
 					}
+				}
+			}
+			return true
+		})
+	})
+	// type texts are rendered at template time only: a qualifier can change until the last import is registered
+	funcsOf(prog, func(pkgPath string, info *types.Info, fd *ast.FuncDecl, fn *types.Func) {
+		if pkgPath != load.PkgMoq {
+			return
+		}
+		ast.Inspect(fd.Body, func(n ast.Node) bool {
+			if call, ok := n.(*ast.CallExpr); ok {
+				if cf, ok := typeutil.Callee(info, call).(*types.Func); ok && cf.Pkg() != nil && cf.Pkg().Path() == load.PkgRegistry && load.FuncName(cf) == "Var.TypeString" {
+					run.Check("G-VARNAME/readers", fn.Pkg().Name()+"."+load.FuncName(fn)+"→Var.TypeString", prog.Pos(call.Pos()), false, load.FuncName(fn)+" renders a type text while the data is still being built: the import it is qualified with can be re-aliased by a later registration")
 				}
 			}
 			return true
